@@ -462,3 +462,18 @@ Example lookup_example :
   snd (grun three_way_hash 3 init
          (map CAct c157_pre ++ [CGet 5 1; CAct (ARemove 2); CGet 5 1])) = [GSome (mkNode 2 2); GSome (mkNode 1 1)].
 Proof. vm_compute. reflexivity. Qed.
+
+(* ---- the final state of any interleaving --------------------------------------------------------
+   The insertion of AddWithReplicas — hashing the virtual nodes, appending the keys, the ring slots,
+   the sort — is ONE write-locked critical section at HEAD ([AInsert]); whatever other calls are started
+   while it runs, they wait.  After ANY sequence of actions the ring is exactly the image of the
+   membership: a value sits in slot h iff a layer of its node has a live virtual node hashing to h,
+   keys holds one key per ring entry and a hash is a key iff it is live — so Get is total on a
+   non-empty ring and (concurrent_get_owner_of_successor) answers the owner of the successor slot. *)
+Theorem concurrent_ring_is_image_of_membership : forall vh R acts,
+  let s := arun vh R acts in
+  (forall h x, In x (bucket h (ring s)) <-> LiveL vh (amap_acts R acts) x h) /\
+  (forall h, cnt (keys s) h = length (bucket h (ring s))) /\
+  (forall h, In h (keys s) <-> live_hashL vh (amap_acts R acts) h).
+Proof. exact arun_ring_image_l. Qed.
+Print Assumptions concurrent_ring_is_image_of_membership.
